@@ -653,7 +653,7 @@ func RunRibHistory(name string, cfg *RibCfg, steps []Step) (*Trace, error) {
 					select {
 					case l := <-yDone:
 						t.Add("%s", l)
-					case <-time.After(5 * time.Second):
+					case <-time.After(wd(5 * time.Second)):
 						t.Add("hang")
 					}
 					// only now (Y has finished) is it safe to take the hook away again
